@@ -404,6 +404,22 @@ def _config_part(ctx, base, pool):
     ctx.log("design verdict (regex + commonprefix): %s ; ids that commonprefix alone would let escape: %d (e.g. %r)" % (
         design, len(prefix_only_unsound), prefix_only_unsound[:2]))
 
+    # cross-check of the TLA+ path model itself against Python's os.path on every id of the universe
+    # (a disagreement means PathModel.tla is wrong: drift, never a violation)
+    rroot = os.path.realpath(root)
+    model_drift = 0
+    for (kind, ids), p in preds["N"].items():
+        for i, e in zip(ids, p["esc"]):
+            np_ = os.path.normpath(os.path.join(root, i))
+            rp = os.path.realpath(os.path.join(root, i))
+            e1 = not (np_ == root or np_.startswith(root + "/"))
+            e2 = not (rp == rroot or rp.startswith(rroot + "/"))
+            if e1 != e or e2 != e:
+                model_drift += 1
+                if model_drift <= 5:
+                    print("DRIFT C20 path model: id=%r Escapes=%s but os.path.normpath says %s, realpath says %s" % (i, e, e1, e2))
+    ctx.drift += model_drift
+
     # ---- replay
     famcases = {"F1": sorted(preds["N"]), "F2": sorted(preds["N"]), "F3": sorted(preds["S"]), "F4": sorted(preds["D"])}
     predof = {"F1": preds["N"], "F2": preds["N"], "F3": preds["S"], "F4": preds["D"]}
